@@ -44,31 +44,63 @@ func TestVerifC07Dup(t *testing.T) {
 		if e {
 			v = ""
 		}
-		res := needsDupCheck(ix, c01sRec(c01sRow{v, "y"}))
+		res := needsDupCheck(ix, c01sRec(c01sRow{k: v, a: "y"}))
 		tr.Q(fmt.Sprintf("needsdup %s %s %s %s", lib.B(p), lib.B(u), lib.B(c), lib.B(e)), lib.B(res))
+	}
+	// uniqueIndexEmpty on composite specs: every emptiness pattern of 1-3 fields
+	for nf := 1; nf <= 3; nf++ {
+		for m := 0; m < 1<<nf; m++ {
+			var b core.RecordBuilder
+			spec := ixkey.Spec{}
+			for i := 0; i < nf; i++ {
+				if m&(1<<i) != 0 {
+					b.Add(core.SuStr(""))
+				} else {
+					b.Add(core.SuStr("x"))
+				}
+				spec.Fields = append(spec.Fields, i)
+			}
+			rec := b.Build()
+			tr.Q("uniqempty "+c07FieldsEmpty(rec, spec), lib.B(uniqueIndexEmpty(rec, spec)))
+		}
 	}
 	val := func() string { return c01sVals[r.Intn(3)] }
 	for h := 0; h < n; h++ {
-		kind := r.Intn(4)
+		kind := r.Intn(5)
+		mkrow := func() c01sRow {
+			x := c01sRow{k: val(), a: val()}
+			if kind == 4 {
+				x.a, x.b = []string{"", "x"}[r.Intn(2)], []string{"", "x"}[r.Intn(2)]
+			}
+			return x
+		}
 		db := CreateDb(stor.HeapStor(64 * 1024))
 		db.CheckerSync()
 		ck := db.ck.(*Check)
 		db.Create(c01sMakeSchema(kind))
 		// 0-2 committed rows
+		broken := false
 		for i, nr := 0, r.Intn(3); i < nr; i++ {
 			ut := db.NewUpdateTran()
-			if lib.Catch(func() { ut.Output(nil, "t", c01sRec(c01sRow{val(), val()})) }) != "" {
+			if lib.Catch(func() { ut.Output(nil, "t", c01sRec(mkrow())) }) != "" {
 				ut.Abort()
 				continue
 			}
-			db.CommitMerge(ut)
+			if msg := lib.Catch(func() { db.CommitMerge(ut) }); msg != "" {
+				tr.Fail("merge-panic", fmt.Sprintf("dup history %d schema %s: commit+merge of a sequentially inserted row panics: %s", h, c01sKinds[kind], msg))
+				broken = true
+				break
+			}
+		}
+		if broken {
+			continue
 		}
 		existing := c01sScanAll(db.NewReadTran(), 1)
 		upd := r.Intn(2) == 0 && len(existing) > 0
 		ut := db.NewUpdateTran()
 		ts := ut.getSchema("t")
 		ti := ut.GetInfo("t")
-		newrow := c01sRow{val(), val()}
+		newrow := mkrow()
 		newrec := c01sRec(newrow)
 		var oldrec core.Record
 		var oldoff uint64
@@ -99,8 +131,8 @@ func TestVerifC07Dup(t *testing.T) {
 			if upd {
 				changed = ix.Ixspec.Key(oldrec) != key
 			}
-			fmt.Fprintf(&sb, " %s%s%s%s%s%s%s:%s", lib.B(empty), lib.B(ix.Primary), lib.B(ix.Mode == 'u'),
-				lib.B(ix.ContainsKey), lib.B(uniqueIndexEmpty(newrec, ix.Ixspec)), lib.B(changed), lib.B(present), lib.X(key))
+			fmt.Fprintf(&sb, " %s%s%s%s%s%s:%s:%s", lib.B(empty), lib.B(ix.Primary), lib.B(ix.Mode == 'u'),
+				lib.B(ix.ContainsKey), lib.B(changed), lib.B(present), c07FieldsEmpty(newrec, ix.Ixspec), lib.X(key))
 		}
 		res := "ok"
 		msg := lib.Catch(func() {
@@ -132,4 +164,16 @@ func TestVerifC07Dup(t *testing.T) {
 		tr.Count(fmt.Sprintf("dup.%s.upd=%v.%s", c01sKinds[kind], upd, strings.SplitN(res, " ", 2)[0]))
 		ut.Abort()
 	}
+}
+
+// c07FieldsEmpty: per field of the index spec, is the raw value empty ("-" for no fields)
+func c07FieldsEmpty(rec core.Record, is ixkey.Spec) string {
+	if len(is.Fields) == 0 {
+		return "-"
+	}
+	var sb strings.Builder
+	for _, f := range is.Fields {
+		sb.WriteString(lib.B(rec.GetRaw(f) == ""))
+	}
+	return sb.String()
 }
